@@ -258,7 +258,8 @@ def check(prop, tier, seed):
         checker_cmd='python3-vt -m pyvc check %s --tier %s' % (prop, tier),
         trusted_base=trusted,
         functions_under_contract=[dict(task=r['name'], paths=r['paths'], wall_s=r.get('wall_s'),
-                                       solver_time_s=r['solver_time']) for r in reports],
+                                       solver_time_s=r['solver_time'],
+                                       repo_functions_executed=r.get('functions', {})) for r in reports],
         sources={k: v for r in reports[:1] for k, v in (r['source'] or {}).items()},
         per_backend=per_backend, solver_time_s=round(solver_time, 3), max_obligation_time_s=max_time,
         undecided=[dict(task=t, reason=u[0], line=u[1]) for t, u in unsupported] +
